@@ -95,6 +95,27 @@ impl<T: Snap> Snap for RefCell<T> {
         gate(if blocked { 2 } else { 0 }, Some(inner))
     }
 }
+// reference wrappers: &mut T (all four traits through the blanket impls), &RefCell / &Mutex / &RwLock (TreeDeserialize
+// through interior mutability): one gate level each, with the state of the cell behind the reference; plain &T
+// (TreeKey + TreeSerialize only) for the shapes the curated programs use
+impl<T: Snap> Snap for &mut T {
+    fn snap(&self) -> Obs { gate(0, Some((**self).snap())) }
+}
+impl<T: Snap> Snap for &RefCell<T> {
+    fn snap(&self) -> Obs { (**self).snap() }
+}
+impl<T: Snap> Snap for &Mutex<T> {
+    fn snap(&self) -> Obs { (**self).snap() }
+}
+impl<T: Snap> Snap for &RwLock<T> {
+    fn snap(&self) -> Obs { (**self).snap() }
+}
+impl<T: LeafVal> Snap for &Leaf<T> {
+    fn snap(&self) -> Obs { gate(0, Some((**self).snap())) }
+}
+impl<T: Snap, const N: usize> Snap for &[T; N] {
+    fn snap(&self) -> Obs { gate(0, Some((**self).snap())) }
+}
 impl<T: Snap + Clone> Snap for Cow<'_, T> {
     fn snap(&self) -> Obs { gate(0, Some((**self).snap())) }
 }
